@@ -102,7 +102,12 @@ def work(arg):
     else:
         pressure = numpy.geomspace(2e-7, 0.2 * min(1.0, scale), npts)
         chosen = None
-    if profile == 'linear':
+    if profile == 'tied':
+        # repeated pressure readings (a gauge at its resolution limit) that carry different loadings: every point is solved for itself
+        pressure = numpy.repeat(pressure[::2], 2)
+        if chosen is not None:
+            chosen = numpy.repeat(chosen[::2], 2)
+    if profile in ('linear', 'tied'):
         loading = numpy.linspace(0.5, 6.0, npts) * scale
     else:
         loading = 6.5 * scale * (pressure / pressure[-1]) ** 0.25 / (1 + 0.08 * (pressure / pressure[-1]) ** 0.25)
@@ -216,7 +221,7 @@ def work(arg):
             break
     # (iv) a lattice of WIDTHS on the attractive branch, dense next to the potential minimum (the smallest pores the method resolves):
     # the pressures the potential equation gives for them are mapped back to those widths
-    if not (model.startswith('RY') and geometry == 'cylinder' and profile != 'linear'):
+    if not (model.startswith('RY') and geometry == 'cylinder' and profile != 'linear') and profile != 'tied':
         # the attractive branch proper: from wide pores inwards for as long as the potential deepens (next to the geometric minimum some
         # potentials are singular, and the Rege-Yang slit potential jumps where a pore holds one more layer: the lattice stays outside)
         jst = len(scan) - 1
@@ -311,6 +316,8 @@ def work(arg):
     # widths non-decreasing in pressure
     dec = numpy.diff(w_solved) < -1e-7
     dec = dec & in_domain[:-1] & in_domain[1:] if len(dec) == len(in_domain) - 1 else dec      # pressures without a pore width say nothing
+    if len(dec) == len(pressure[:len(w_solved)]) - 1:
+        dec = dec & (numpy.diff(pressure[:len(w_solved)]) > 0)      # the order of widths is stated along increasing pressures only
     if dec.any():
         i = int(numpy.argmax(dec))
         covi = float(cov[i + 1]) if cov is not None else None
@@ -470,7 +477,7 @@ def run(ctx):
                             continue
                         if heavy and (mi + ai + ti) % 4 != 0:
                             continue
-                        for prof in ('linear', 'concave'):
+                        for prof in ('linear', 'concave', 'tied'):
                             jobs.append((model, geom, mat, ads, T, prof, ctx.scale))
     res = core.pmap(work, jobs, chunk=1)
     for r in res:
@@ -478,8 +485,8 @@ def run(ctx):
         ctx.violate(r['viol'])
         ctx.track('published_slit_equation', r['worst_pub'], 1e-6)
     check_entry(ctx)
-    ctx.cov['domain_sizes'] = {'analyses': len(jobs), 'models': 4, 'geometries': 3, 'adsorbents': 4, 'adsorbates': 5, 'temperatures': 4, 'profiles': 2, 'points_per_analysis': 12}
-    ctx.cov['rule'] = ('4 models x 3 geometries x 4 adsorbent sets x 5 adsorbate sets x 4 temperatures x 2 loading profiles x 12 pressures (quick: a quarter of the '
+    ctx.cov['domain_sizes'] = {'analyses': len(jobs), 'models': 4, 'geometries': 3, 'adsorbents': 4, 'adsorbates': 5, 'temperatures': 4, 'profiles': 3, 'points_per_analysis': 12}
+    ctx.cov['rule'] = ('4 models x 3 geometries x 4 adsorbent sets x 5 adsorbate sets x 4 temperatures x 3 loading profiles (linear, concave, linear over pairwise repeated pressures) x 12 pressures (quick: a quarter of the '
                        'adsorbent x adsorbate x temperature product per model x geometry, RY-cylinder only in thorough); for HK-slit the pressures are generated from a width lattice by '
                        'the independently implemented published equation; every solved width is compared with a 250-1500 point scan of the solver bracket.')
     ctx.require('analyses', len(jobs), 100)
